@@ -70,6 +70,7 @@ def _worker(wid, spaces, counter, nblocks_total, order, deadline, beacon_path, c
     R = Rec()
     done_blocks = 0
     per_space = {}
+    last_flush = time.time()
     bf = open(beacon_path, "r+b")
     bm = mmap.mmap(bf.fileno(), BEACON_SZ * NWORK)
     off = wid * BEACON_SZ
@@ -126,6 +127,14 @@ def _worker(wid, spaces, counter, nblocks_total, order, deadline, beacon_path, c
             ps[0] += R.n - n0
             ps[1] += 1
             done_blocks += 1
+            if time.time() - last_flush > 1.0:
+                # partial results of COMPLETED blocks go to the parent now, so that a later crash of this worker loses nothing
+                struct.pack_into("<qqq", bm, off, -2, -2, 0)
+                conn.send(pickle.dumps({"n": R.n, "sigs": R.sigs, "fails": R.fails, "nfail": R.nfail, "samples": R.samples,
+                                        "blocks": done_blocks, "per_space": per_space, "extra": R.extra, "partial": True}))
+                R.n, R.sigs, R.fails, R.nfail, R.samples, R.extra = 0, set(), [], 0, [], {}
+                done_blocks, per_space = 0, {}
+                last_flush = time.time()
         struct.pack_into("<qqq", bm, off, -1, -1, 0)
         conn.send(pickle.dumps({"n": R.n, "sigs": R.sigs, "fails": R.fails, "nfail": R.nfail, "samples": R.samples,
                                 "blocks": done_blocks, "per_space": per_space, "extra": R.extra}))
@@ -136,6 +145,24 @@ def _worker(wid, spaces, counter, nblocks_total, order, deadline, beacon_path, c
         if os.environ.get("VERIF_COV"):
             import ctypes
             ctypes.CDLL(None).exit(0)          # run C-level destructors so that gcov counters are written
+
+
+def _merge(res, d):
+    if "error" in d:
+        res["errors"].append(d["error"])
+        return
+    res["n"] += d["n"]
+    res["sigs"] |= d["sigs"]
+    res["fails"] += d["fails"]
+    res["nfail"] += d["nfail"]
+    res["samples"] += d["samples"]
+    res["blocks"] += d["blocks"]
+    for k, v in d["per_space"].items():
+        ps = res["per_space"].setdefault(k, [0, 0])
+        ps[0] += v[0]
+        ps[1] += v[1]
+    for k, v in d["extra"].items():
+        res["extra"][k] = res["extra"].get(k, 0) + v
 
 
 def run_spaces(spaces, deadline_s, slow=False, stall_s=600):
@@ -167,50 +194,34 @@ def run_spaces(spaces, deadline_s, slow=False, stall_s=600):
     while alive:
         for w in list(alive):
             p, pc = procs[w]
-            if w not in got and pc.poll(0.02):
+            while w not in got and pc.poll(0.002):
                 try:
                     d = pickle.loads(pc.recv())
                 except EOFError:
-                    d = None
-                if d is not None:
+                    break
+                _merge(res, d)
+                if not d.get("partial"):
                     got.add(w)
-                    if "error" in d:
-                        res["errors"].append(d["error"])
-                    else:
-                        res["n"] += d["n"]
-                        res["sigs"] |= d["sigs"]
-                        res["fails"] += d["fails"]
-                        res["nfail"] += d["nfail"]
-                        res["samples"] += d["samples"]
-                        res["blocks"] += d["blocks"]
-                        for k, v in d["per_space"].items():
-                            ps = res["per_space"].setdefault(k, [0, 0])
-                            ps[0] += v[0]
-                            ps[1] += v[1]
-                        for k, v in d["extra"].items():
-                            res["extra"][k] = res["extra"].get(k, 0) + v
             if not p.is_alive():
                 p.join()
                 alive.discard(w)
                 if w not in got:
-                    # drain a late message
-                    if pc.poll(0.2):
+                    # drain late messages
+                    while pc.poll(0.2):
                         try:
                             d = pickle.loads(pc.recv())
-                            got.add(w)
-                            if "error" in d:
-                                res["errors"].append(d["error"])
-                            else:
-                                res["n"] += d["n"]; res["sigs"] |= d["sigs"]; res["fails"] += d["fails"]
-                                res["nfail"] += d["nfail"]; res["samples"] += d["samples"]; res["blocks"] += d["blocks"]
-                                for k, v in d["per_space"].items():
-                                    ps = res["per_space"].setdefault(k, [0, 0]); ps[0] += v[0]; ps[1] += v[1]
-                                for k, v in d["extra"].items():
-                                    res["extra"][k] = res["extra"].get(k, 0) + v
-                            continue
                         except EOFError:
-                            pass
+                            break
+                        _merge(res, d)
+                        if not d.get("partial"):
+                            got.add(w)
+                    if w in got:
+                        continue
                     si, bi, k, ln = struct.unpack_from("<qqqq", bm, w * BEACON_SZ)
+                    if si < 0:
+                        # died between blocks (after a flush / at the very end): nothing was in progress
+                        res["errors"].append("worker %d exited (%r) outside a block" % (w, p.exitcode))
+                        continue
                     case = bm[w * BEACON_SZ + 32:w * BEACON_SZ + 32 + ln].decode("latin1") if slow and 0 < ln < BEACON_SZ else None
                     res["crashes"].append({"worker": w, "exit": p.exitcode, "space_idx": si, "block_idx": bi, "k": k, "case": case})
                 continue
